@@ -66,6 +66,17 @@ def cases(tier, seed):
       for cfg in cfgs:
         out.append({'est': name, 'params': cfg, 'ds': ds,
                     'seed': (seed * 7 + di) % 1000})
+      # numeric hyper-parameters drawn inside their documented ranges
+      for h in range(2 if tier == 'quick' else 12):
+        r = rng_for('c3h', seed, name, di, h)
+        cfg = dict(full[int(r.randint(len(full)))])
+        hp = configs.random_hyper(name, ds['d'], ds['classes'], r)
+        if 'n_basis' in cfg and cfg['n_basis'] is not None:
+          hp.pop('n_basis', None)
+        cfg.update({k_: v for k_, v in hp.items() if k_ not in cfg or
+                    k_ in ('k',)})
+        out.append({'est': name, 'params': cfg, 'ds': ds, 'hyper': True,
+                    'seed': int(r.randint(1000))})
   return out
 
 
